@@ -106,12 +106,11 @@ class World(object):
         s.set(sdss, 'maskbits', {k: dict(v) for k, v in survey.MASKBITS.items()})
         for m in (spec1d, window, astro):
             install_clock(s, m, self.clock)
+        import matplotlib
+        matplotlib.use(self.w.get('mpl_backend', 'agg'), force=True)
         if self.w['plots'] == 'stub':
             s.set(spec1d, 'plt', StubPlt())
             s.set(spec1d, 'FontProperties', _stub_fontproperties)
-        else:
-            import matplotlib
-            matplotlib.use('Agg')
         self._real_sdss_score = window.sdss_score
         self._window = window
         self._spec1d = spec1d
